@@ -413,7 +413,11 @@ namespace R
          ctl_log.push_back( { in.ctl, I, pos } );
          touch( pos );
          const Entry e = tab[ I ];
+         const int hw_old = hw;
+         hw = pos;
          Res r = ev_op( e.op, e.a, e.b, e.c, I, pos, end2, in );
+         const int hw_rule = hw;
+         if( hw_old > hw ) hw = hw_old;
          stack.pop_back();
          if( at.kind == AK_LIMIT_DEPTH ) --depth;
          if( r.k == OK ) {
@@ -436,6 +440,10 @@ namespace R
             // ---- attachments that act after the rule matched
             if( at.kind == AK_LIMIT_BYTES && r.pos == end2 && end2 != end ) r = { RAISE, 0, WHO_LIMIT_BYTES, r.pos, r.pos, -1 };
             if( at.kind == AK_CHECK_BYTES && r.pos - pos > at.n ) r = { RAISE, 0, WHO_CHECK_BYTES, r.pos, r.pos, -1 };
+         }
+         if( r.k == FAIL && raises_on_failure( I ) ) {
+            // must_if control: the failure hook of this rule raises (position: wherever the failed attempt left the cursor)
+            r = { RAISE, 0, I, pos, std::max( pos, hw_rule ), -1 };
          }
          if( new_state >= 0 ) {
             if( r.k == OK && am.am ) st_log.push_back( { 1, new_state, r.pos, am.state } );
